@@ -602,7 +602,7 @@ def rule_loader_enumeration(ctx, px):
             if not sites:
                 # enumerated through the same precedence-ordered loader list (each member is there whenever it exists)
                 from checks import _loaders
-                ol2 = _loaders.ordered_loop(en)
+                ol2 = _loaders.ordered_loop(en, comprehensions=True)
                 if ol2 is not None and ld in ol2[2] and any(isinstance(c_, ast.Call) and isinstance(c_.func, ast.Attribute) and c_.func.attr == "list_templates"
                                                             and isinstance(c_.func.value, ast.Name) and c_.func.value.id == ol2[1] for c_ in ast.walk(ol2[0])) \
                         and not pyfront.guards_of(en.node, ol2[0]):
